@@ -128,6 +128,7 @@ type Engine struct {
 	uniq                                          []uniqEntry
 	parGroups                                     int
 	allocSub                                      int
+	nowSeq                                        int
 	ambiguousInput                                string
 	forkSites                                     map[string]int
 	rangeConds                                    map[*Term]*Term
